@@ -17,7 +17,7 @@ fn mk_compiler() -> Compiler {
         upvalues: Vec::new(),
         scope_depth: 0,
         lambda_count: 0,
-        in_try_block: false,
+        try_depth: 0,
         loop_stack: Vec::new(),
         break_stack: Vec::new(),
     }
